@@ -320,14 +320,14 @@ theorem pure_constructor_map_partial (norm : String → String) (l l' : List (St
 
 open Purity Value in
 /-- **…and the side condition is necessary** (candidate finding, reproduced on the
-real code by the harness: `ObjectVal({"é" (NFC): a, "é" (NFD): b})` is `{"é": a}` or
-`{"é": b}` from call to call).  With ANY normalisation that identifies two different
+real code by the harness: `ObjectVal({"\u00e9": a, "e\u0301": b})` — the same letter é
+composed and decomposed — is `{"\u00e9": a}` or `{"\u00e9": b}` from call to call).  With ANY normalisation that identifies two different
 keys, the two visiting orders of a two-entry map give different maps. -/
 theorem constructor_map_collision_counterexample :
-    ¬ ConstructorMapPure (fun s => if s = "é" then "é" else s) := by
+    ¬ ConstructorMapPure (fun s => if s = "e\u0301" then "\u00e9" else s) := by
   intro h
-  have := h [("é", .str "a"), ("é", .str "b")] [("é", .str "b"), ("é", .str "a")]
-    (List.Perm.swap _ _ _) (.s "é")
+  have := h [("\u00e9", .str "a"), ("e\u0301", .str "b")] [("e\u0301", .str "b"), ("\u00e9", .str "a")]
+    (List.Perm.swap _ _ _) (.s "\u00e9")
   revert this
   decide
 
